@@ -226,3 +226,30 @@ ben("c03-benign-push-e", ["C03"], "src/backend/postgres/query.rs",
             buffer.push('E');
         }
         write!(buffer, "'{escaped}'").unwrap()""")
+
+# ---- C06 -------------------------------------------------------------------------------------------------------
+brk("c06-add-drop-negate", ["C06"], "src/query/condition.rs", "            if c.conditions.len() == 1 && !c.negate {", "            if c.conditions.len() == 1 {", "C06.R1:add:unwrap:guard")
+brk("c06-merge-any-addition", ["C06"], "src/query/condition.rs",
+    "                    if addition.condition_type == ConditionType::All && !addition.negate {", "                    if !addition.negate {", "C06.R2:add_condition:concat:guard")
+brk("c06-swap-empty-constants", ["C06"], "src/query/condition.rs",
+    """                ConditionType::Any => false.into(),
+                ConditionType::All => true.into(),""",
+    """                ConditionType::Any => true.into(),
+                ConditionType::All => false.into(),""", "C06.R3:empty")
+brk("c06-swap-fold", ["C06"], "src/query/condition.rs",
+    """                    ConditionType::Any => out_expr.or(e),
+                    ConditionType::All => out_expr.and(e),""",
+    """                    ConditionType::Any => out_expr.and(e),
+                    ConditionType::All => out_expr.or(e),""", "C06.R3:fold")
+brk("c06-having-into-where", ["C06"], "src/query/select.rs", "        self.having.add_condition(condition.into_condition());", "        self.r#where.add_condition(condition.into_condition());", "C06.R5:api")
+ben("c06-benign-merge-single-any", ["C06"], "src/query/condition.rs",
+    "                    if addition.condition_type == ConditionType::All && !addition.negate {",
+    "                    if (addition.condition_type == ConditionType::All || addition.conditions.len() == 1) && !addition.negate {")
+ben("c06-benign-helper", ["C06"], "src/query/condition.rs",
+    """                if current.condition_type == ConditionType::All && !current.negate {
+                    if addition.condition_type == ConditionType::All && !addition.negate {""",
+    """                fn plain(c: &Condition) -> bool {
+                    !c.negate && c.condition_type == ConditionType::All
+                }
+                if plain(&current) {
+                    if plain(&addition) {""")
